@@ -33,7 +33,7 @@ def overlaps(c, lo, hi, s, e):
     return (s < hi) & (e > lo)
 
 
-@harness(["C05", "C06", "C07", "C08"], "framing.extract", functions=[SE + ".extract_server_buf", SE + ".extract_client_buf", "tlexport.tlsrecord.TlsRecord.__init__"],
+@harness(["C05", "C06", "C07", "C08", "C01"], "framing.extract", functions=[SE + ".extract_server_buf", SE + ".extract_client_buf", "tlexport.tlsrecord.TlsRecord.__init__"],
          cases=[(d, n) for d in ("server", "client") for n in range(1, MAXP + 1)], timeout=20000)
 def h_extract(c, direction, npk):
     buf_attr, rec_attr = direction + "_packet_buffer", direction + "_tls_records"
@@ -174,7 +174,7 @@ def early_at_empty(c, perm, cuts, S, total):
 PERMS = {1: [(0,)], 2: [(0, 1), (1, 0)], 3: [(0, 1, 2), (0, 2, 1), (1, 0, 2), (1, 2, 0), (2, 0, 1), (2, 1, 0)]}
 
 
-@harness(["C05", "C08"], "framing.history", functions=[SE + ".get_tls_records", SE + ".extract_server_buf", SE + ".extract_client_buf"],
+@harness(["C05", "C08", "C01"], "framing.history", functions=[SE + ".get_tls_records", SE + ".extract_server_buf", SE + ".extract_client_buf"],
          cases=[(d, n, perm) for d in ("server", "client") for n in (1, 2, 3) for perm in PERMS[n]], timeout=20000)
 def h_history(c, direction, npk, perm):
     """one direction's byte stream S (<= MAXB bytes, any content) cut into npk segments at arbitrary points, initial
